@@ -100,7 +100,7 @@ OFFERS = ["none", "held", "held-noems", "held-noetm", "ticket-flip-first",
           "ticket-flip-mid", "ticket-flip-last", "unknown-id", "foreign",
           "held-refreshed-clock", "held-other-hash", "held-same-hash",
           "held-copy", "held-no-alpn", "held-other-alpn", "held-other-sni",
-          "held-no-sni"]
+          "held-no-sni", "held-renamed-sni"]
 # suite the client offers instead of the session's: (other PRF hash / other
 # suite, same hash) per original cipher name
 OTHER = {"aes128gcm": ("aes256gcm", "chacha20-poly1305"),
@@ -143,7 +143,8 @@ def apply_offer(st, offer):
     # resumed connection marks *that* object (stateless tickets can only be
     # invalidated on the client)
     if offer.startswith("ticket-flip") or offer in ("unknown-id",
-                                                    "held-copy"):
+                                                    "held-copy",
+                                                    "held-renamed-sni"):
         # "held-copy": a client that stored the session elsewhere (or is
         # not this library): a fatal error seen on another connection of
         # the session does not mark its copy, only the server can refuse
@@ -207,6 +208,14 @@ def apply_offer(st, offer):
         cset["_sni"] = "other.example"
     elif offer == "held-no-sni":
         cset["_sni"] = None
+    elif offer == "held-renamed-sni":
+        # a client that does not keep the server name with the session (the
+        # library's own client refuses "held-other-sni" locally): only the
+        # server can refuse.  Refusing by aborting is allowed (TLS <= 1.2
+        # servers do), resuming is not
+        sess.serverName = "other.example"
+        cset["_sni"] = "other.example"
+        inconsistent = True
     elif offer == "held-refreshed-clock":
         # a client whose notion of the ticket's receipt time is wrong keeps
         # offering it after the lifetime
@@ -237,6 +246,7 @@ def eligible(st, meta, srv_index, offer_sess, offer="held"):
                                       mech["version"] < (3, 4)):
         return False, "session's suite (hash) not offered"
     offered_sni = {"held-other-sni": "other.example",
+                   "held-renamed-sni": "other.example",
                    "held-no-sni": None}.get(offer, "host.example")
     if offered_sni != meta["sni"]:
         return False, "offered under another server name"
@@ -421,7 +431,7 @@ def step(st, ev, seed):
         step(st, ("close", "clean"), seed)
     rec = do_connect(st, ev[1], seed)
     st.last_used_copy = ev[1].startswith("ticket-flip") or ev[1] in (
-        "unknown-id", "held-copy")
+        "unknown-id", "held-copy", "held-renamed-sni")
     if "local_error" in rec:
         return fails
     mech = st.mech
@@ -430,7 +440,10 @@ def step(st, ev, seed):
     tls13 = mech["version"] >= (3, 4)
     # an offer is inconsistent only if it drops something the session had
     if rec["inconsistent"] and st.meta is not None:
-        if tls13:
+        if rec["offer"] == "held-renamed-sni":
+            # (the held session may itself be one made as "other.example")
+            rec["inconsistent"] = st.meta["sni"] != "other.example"
+        elif tls13:
             rec["inconsistent"] = False
         elif rec["offer"] == "held-noems" and not st.meta["ems"]:
             rec["inconsistent"] = False
